@@ -159,6 +159,9 @@ package engine
 //@ func (e naiveEngine) oneStepEvalPremise(premise, subst)
 //@   requires e.store != nil
 //@   opt nosafety
+// every substitution a built-in predicate returns becomes a solution (a generator such as :list:member returns several)
+//@   loop 1 invariant len(solutions) == rangeindex + 1
+//@   loop 1 atexit len(solutions) == len(nsubsts)
 //@   ensures premise is ast.NegAtom ==> (errNeg((premise as ast.NegAtom).Atom, factstore.view(e.store), subst) ? len(result) == 0 : result == solNeg((premise as ast.NegAtom).Atom, factstore.view(e.store), subst))
 //@   ensures premise is ast.Eq ==> (errEq((premise as ast.Eq).Left, (premise as ast.Eq).Right, subst) ? len(result) == 0 : result == solEq((premise as ast.Eq).Left, (premise as ast.Eq).Right, subst))
 //@   ensures premise is ast.Ineq ==> (errIneq((premise as ast.Ineq).Left, (premise as ast.Ineq).Right, subst) ? len(result) == 0 : result == solIneq((premise as ast.Ineq).Left, (premise as ast.Ineq).Right, subst))
@@ -237,3 +240,9 @@ package engine
 //@   loop 2 invariant forall i int :: 0 <= i && i < rangeindex#2 + 1 ==> doStmt.Fn.Args[i] is ast.Variable && subst.Get(doStmt.Fn.Args[i] as ast.Variable) is ast.Constant && key[i] == (subst.Get(doStmt.Fn.Args[i] as ast.Variable) as ast.Constant)
 //@   guard return in loop 3: err != nil
 //@   guard call EvalReduceFn in loop 3: arg1 == group#2.values
+
+// The semi-naive evaluator's positive-atom premise: likewise every substitution of a built-in becomes a solution.
+//@ func premiseAtom(a, lookupFn, subst)
+//@   opt nosafety
+//@   loop 1 invariant len(solutions) == rangeindex + 1
+//@   loop 1 atexit len(solutions) == len(nsubsts)
